@@ -24,6 +24,7 @@ fn value(bytes: &[u8], big: bool) -> u128 {
     v
 }
 
+fn deep() -> bool { std::env::var("VERIF_TIER").map(|t| t == "thorough").unwrap_or(false) } // thorough tier: wider bounds
 fn main() {
     std::panic::set_hook(Box::new(|_| {}));
     let mut found = 0usize;
@@ -48,7 +49,7 @@ fn main() {
     for len in 0..=3usize {
         let total = ns.pow(len as u32);
         for code in 0..total {
-            if len == 3 && code % 7 != 0 { continue; } // 1 in 7 of the 3-store sequences
+            if len == 3 && !deep() && code % 7 != 0 { continue; } // 1 in 7 of the 3-store sequences
             let mut idx = code;
             let mut hist = vec![];
             for _ in 0..len { hist.push(stores[idx % ns]); idx /= ns; }
